@@ -47,9 +47,9 @@ def DSpec.level (d : DSpec) : Level :=
 
 def DSpec.message (d : DSpec) : String :=
   match d.kind with
-  | .dupfile => "slice file was provided more than once: '" ++ d.payload ++ "'"
-  | .deprecated => "'" ++ d.payload ++ "' is deprecated"
-  | .syn => "invalid syntax: " ++ d.payload
+  | .dupfile => Gen.msgDuplicateFile.1 ++ d.payload ++ Gen.msgDuplicateFile.2
+  | .deprecated => Gen.msgDeprecated.1 ++ d.payload ++ Gen.msgDeprecated.2
+  | .syn => Gen.msgSyntax.1 ++ d.payload ++ Gen.msgSyntax.2
   | _ => d.payload
 
 def DSpec.toDiag (d : DSpec) : Diag :=
